@@ -331,6 +331,52 @@ def fam_growth(tier, seed, tag, nruns, conc=False, faults=False):
     return out
 
 
+_EXH = {}
+
+
+def fam_exhaustive(tier, tag, variants=("plain", "backing", "special"), depth=None, sample=None, seed=1):
+    """small-scope exhaustive histories (spec/GenOps.tla): every sequence of up
+    to DEPTH operations on two guest clusters of a 4-cluster device, on three
+    image variants (allocated/unallocated, backing-provided, compressed +
+    preallocated zero)"""
+    depth = depth or (3 if tier == "quick" else 4)
+    if depth not in _EXH:
+        _EXH[depth] = Q.tlc_enumerate("GenOps.tla", env={"DEPTH": str(depth)}, timeout=1800)[0]
+    hist = _EXH[depth]
+    geo = dict(cb=10, ro=4, bsb=9, vclusters=4, params={"l2": [9, 1024], "rb": [9, 1024]})
+    D = lambda g, kind, wid: {"g": g, "kind": kind, "wid": wid}
+    imgs = {
+        "plain": [{"kind": "build", "desc": {"cb": 10, "ro": 4, "vclusters": 4, "shuffle": 0, "holes": 0,
+                                             "clusters": [D(0, "data", 1), D(2, "data", 1)]}}],
+        "backing": [{"kind": "build", "desc": {"cb": 10, "ro": 4, "vclusters": 4, "shuffle": 0, "holes": 0,
+                                               "clusters": [D(1, "zero", 1)]}},
+                    {"kind": "build", "desc": {"cb": 10, "ro": 4, "vclusters": 4, "shuffle": 0, "holes": 0,
+                                               "clusters": [D(0, "data", 2), D(1, "data", 2), D(2, "data", 2), D(3, "data", 2)]}}],
+        "special": [{"kind": "build", "desc": {"cb": 10, "ro": 4, "vclusters": 4, "shuffle": 0, "holes": 0,
+                                               "clusters": [D(0, "comp", 1), D(1, "zero_prealloc", 1), D(2, "data", 1)]}}],
+    }
+    rng = random.Random(seed * 1237 + depth)
+    out = []
+    rd = {"op": "read", "gb": 0, "n": 8}
+    for vi, v in enumerate(variants):
+        hs = hist
+        if sample and len(hs) > sample:
+            hs = rng.sample(hs, sample)
+        for k, h in enumerate(hs):
+            steps = []
+            for o in h["ops"]:
+                g, part = o["g"], o["part"]
+                if o["op"] in ("w", "d"):
+                    gb, n = {"full": (g * 2, 2), "head": (g * 2, 1), "tail": (g * 2 + 1, 1), "both": (0, 4)}[part]
+                    steps.append({"op": "write" if o["op"] == "w" else "discard", "gb": gb, "n": n})
+                else:
+                    steps.append({"op": {"f": "flush", "s": "fsync", "k": "shrink", "r": "reopen"}[o["op"]]})
+            steps += [rd, {"op": "flush"}, {"op": "fsync"}, rd, {"op": "reopen"}, rd]
+            code = "".join(o["op"] + (str(o["g"]) + o["part"][0] if o["op"] in "wd" else "") for o in h["ops"])
+            out.append(S.mk(f"{tag}-{v}-{code}", geo, imgs[v], steps, sample_flag=True))
+    return out
+
+
 def fam_cowread(tier, seed, tag, nruns):
     """reads overlapping copy-on-write in time: partial writes over backing /
     compressed clusters with concurrent reads of the same and neighbouring clusters"""
@@ -672,6 +718,7 @@ def check_C01(chk):
     scens += fam_wide(chk.tier, chk.seed, "c01w", 8 if chk.tier == "quick" else 80)
     scens += fam_growth(chk.tier, chk.seed, "c01g", 4 if chk.tier == "quick" else 40)
     scens += fam_allocstress(chk.tier, chk.seed, "c01a", 6 if chk.tier == "quick" else 60)
+    scens += fam_exhaustive(chk.tier, "c01e", seed=chk.seed)
     scens += fam_regress()
     res, st = Q.run_batch(scens, chk.wd, known=chk.known_tags(), par=12)
     chk.consume(res, st, props=("C01",))
@@ -688,6 +735,7 @@ def check_C02(chk):
     scens = fam_seq(chk.tier, chk.seed, "c02", n, 28 if chk.tier == "quick" else 50, weights=w, sweep_every=0)
     scens += fam_backing(chk.tier, chk.seed, "c02b", n // 2, 18)
     scens += fam_wide(chk.tier, chk.seed, "c02w", 8 if chk.tier == "quick" else 80)
+    scens += fam_exhaustive(chk.tier, "c02e", seed=chk.seed)
     scens += fam_regress()
     res, st = Q.run_batch(scens, chk.wd, known=chk.known_tags(), par=12)
     chk.consume(res, st, props=("C02",))
@@ -705,6 +753,7 @@ def check_C03(chk):
     scens += fam_backing(chk.tier, chk.seed, "c03b", n // 2, 18)
     scens += fam_allocstress(chk.tier, chk.seed, "c03a", 9 if chk.tier == "quick" else 90)
     scens += fam_wide(chk.tier, chk.seed, "c03w", 4 if chk.tier == "quick" else 40)
+    scens += fam_exhaustive(chk.tier, "c03e", seed=chk.seed)
     scens += fam_regress()
     res, st = Q.run_batch(scens, chk.wd, known=chk.known_tags(), par=12)
     chk.consume(res, st, props=("C03",))
@@ -739,6 +788,7 @@ def check_C04(chk):
                     geoms=["G1", "G2", "G2k", "G4", "G3a", "G6"])
     scens += fam_backing(chk.tier, chk.seed, "c04b", n // 3, 10)
     scens += fam_conc_disjoint(chk.tier, chk.seed, "c04c", 40 if chk.tier == "quick" else 600)
+    scens += fam_exhaustive(chk.tier, "c04e", seed=chk.seed)
     scens += fam_regress()
     res, st = Q.run_batch(scens, chk.wd, mode="crash", known=chk.known_tags(), par=14)
     chk.consume(res, st, props=("C04",))
@@ -758,6 +808,7 @@ def check_C05(chk):
                     geoms=["G1", "G2", "G2k", "G4", "G3a", "G6"])
     scens += fam_backing(chk.tier, chk.seed, "c05b", n // 3, 10)
     scens += fam_conc_disjoint(chk.tier, chk.seed, "c05c", 40 if chk.tier == "quick" else 600)
+    scens += fam_exhaustive(chk.tier, "c05e", seed=chk.seed)
     scens += fam_regress()
     res, st = Q.run_batch(scens, chk.wd, mode="crash", known=chk.known_tags(), par=14)
     chk.consume(res, st, props=("C05",))
@@ -903,6 +954,7 @@ def check_C10(chk):
         steps += [{"op": "sweep"}, {"op": "flush"}, {"op": "sweep"}, {"op": "reopen"}, {"op": "sweep"}]
         scens.append(S.mk(f"c10t-{i}", geo, images, steps))
     scens += fam_cowread(chk.tier, chk.seed, "c10r", 40 if chk.tier == "quick" else 600)
+    scens += fam_exhaustive(chk.tier, "c10e", seed=chk.seed)
     scens += fam_regress()
     res, st = Q.run_batch(scens, chk.wd, known=chk.known_tags(), par=14)
     chk.consume(res, st, props=("C10", "C01", "C02", "C03", "PANIC"))
@@ -954,6 +1006,7 @@ def check_C11(chk):
         steps += [{"op": "flush"}, {"op": "sweep"}, {"op": "reopen"}, {"op": "sweep"}]
         scens.append(S.mk(f"c11-{i}", geo, images, steps))
     scens += fam_wide(chk.tier, chk.seed, "c11w", 10 if chk.tier == "quick" else 100)
+    scens += fam_exhaustive(chk.tier, "c11e", seed=chk.seed)
     scens += fam_regress()
     res, st = Q.run_batch(scens, chk.wd, known=chk.known_tags(), par=14)
     chk.consume(res, st, props=("C11", "C01", "C02", "C03", "C07", "PANIC"))
@@ -1161,6 +1214,8 @@ def check_C18(chk):
     for s in seqs:
         s["sample_flag"] = True
     scens += seqs
+    scens += fam_exhaustive(chk.tier, "c18e", seed=chk.seed)
+    scens += fam_regress()
     res, st = Q.run_batch(scens, chk.wd, known=chk.known_tags(), par=14)
     chk.consume(res, st, props=("C18",))
     for name, r in res.items():
